@@ -14,8 +14,8 @@ RULE = ('Evaluation = one (scene, bijectively renamed scene) pair run through th
         'Non-trivial = >= 2 ceilometers; distinct = hash of (rows, parameters, mapping).')
 ASSUMPTIONS = ['names are non-empty distinct strings']
 REQUIRED = ['order_reversing', 'substring_names', 'regex_like_names', 'numeric_string_names', 'exclusion_mapped',
-            'exclusion_fallback', 'lookback_lt100_coincident', 'permutation_of_same_names', 'exclusion_entry_absent_but_similar']
-SIZES = {'quick': 300, 'thorough': 8000}
+            'exclusion_fallback', 'lookback_lt100_coincident', 'permutation_of_same_names', 'exclusion_entry_absent_but_similar', 'tie_at_cut_between_instruments']
+SIZES = {'quick': 420, 'thorough': 8000}
 TARGETS = [
     ('numeric_string_names', ['9', '10', '11', '100', '2', '1', '20', '3']),
     ('substring_names', ['PAY', 'PAYERNE', 'PAYERNE-2', 'AY', 'P', 'ERN', 'NE-2', 'Y']),
@@ -36,10 +36,12 @@ def check(desc):
     nce = int(rng.choice([2, 2, 3, 4, 6, 8]))
     if i % 3 == 0:
         sc = scenes.tie_cut_scene(rng) if i % 2 else scenes.close_chain_scene(rng, nce=3)
-        prm = {'call': pipeline.base_prms(rng, sc, {'exclude': 'rand' if i % 4 else None, 'lookback': [50, 41, 20, 100][i % 4]}), 'glob': {}}
         if sc['fam'] == 'tiecut':
-            prm['call']['MIN_SEP_VALS'] = [100.0]
-            prm['call']['MIN_SEP_LIMS'] = []
+            # the look-back that makes the cut fall between two simultaneous hits of different instruments
+            prm = {'call': {'BASE_LVL_LOOKBACK_PERC': sc.pop('lookback'), 'BASE_LVL_HEIGHT_PERC': float(rng.choice([0, 0, 1, 100])),
+                            'MIN_SEP_VALS': [100.0], 'MIN_SEP_LIMS': []}, 'glob': {}}
+        else:
+            prm = {'call': pipeline.base_prms(rng, sc, {'exclude': 'rand' if i % 4 else None, 'lookback': [50, 41, 20, 100][i % 4]}), 'glob': {}}
     else:
         sc = scenes.gen_scene(rng, nce=nce, maxrows=350)
         prm = scenes.gen_prms(rng, sc, rich=(i % 5 == 0))
@@ -118,6 +120,8 @@ def check(desc):
             stamps.setdefault(r[1], set()).add(r[0])
         if any(len(v) > 1 for v in stamps.values()):
             tags.add('lookback_lt100_coincident')
+    if sc.get('fam') == 'tiecut':
+        tags.add('tie_at_cut_between_instruments')
     res['tags'] = sorted(tags)
     res['case'] = {'scene': sc, 'prm': prm, 'mapping': mp}
     if desc['i'] % 37 == 0:
